@@ -43,6 +43,8 @@ structure OScan where
   blocks : Nat := 0
   pendingFail : String := ""   -- tx-level disagreement found inside the current block
   probes : String := ""
+  ts : Nat := 0
+  spotW : Nat := 2
 
 def restAfter (rec : String) (n : Nat) : String := " ".intercalate ((rec.splitOn " ").drop n)
 
@@ -90,8 +92,18 @@ def scanOracle (out : String) : OScan :=
       let s1 := wds.foldl (fun st r => withdrawAgg st hN tsN r.qid r.value r.power) s0
       let spotW := (parseNat? w).getD 2
       (match endBlock s1 hN tsN (fun _ => ⟨spotW, "weighted-median"⟩) with
-       | some s2 => { sc with s := s2, h := hN, blocks := sc.blocks + 1 }
+       | some s2 => { sc with s := s2, h := hN, blocks := sc.blocks + 1, ts := tsN, spotW := spotW }
        | none => { sc with ok := false, note := s!"model end-blocker fails at h={hN}" })
+    | ["SKIP", nS, dtS, _hS] =>
+      -- n blocks without transactions (not observed one by one): n end blockers, block time advancing by dt each
+      let n := (((nS.splitOn "=").getD 1 "").toNat?).getD 0
+      let dt := (((dtS.splitOn "=").getD 1 "").toNat?).getD 0
+      if !sc.ready then sc else
+      (List.range n).foldl (fun (sc : OScan) _ =>
+        if !sc.ok then sc else
+        match endBlock sc.s (sc.h + 1) (sc.ts + dt) (fun _ => ⟨sc.spotW, "weighted-median"⟩) with
+        | some s2 => { sc with s := s2, h := sc.h + 1, ts := sc.ts + dt, blocks := sc.blocks + 1 }
+        | none => { sc with ok := false, note := s!"model end-blocker fails at h={sc.h + 1} (skipped block)" }) sc
     | "Q" :: rest =>
       let implS := " ".intercalate rest
       let qs := (commaList implS).filterMap parseQuery
@@ -161,6 +173,26 @@ def c08Monitor (out : String) : Bool × String :=
     | _ => (true, "")
   let (ok, note) := go dumps
   if !ok then (ok, note) else
+  -- "an aggregate becomes flagged when the report that determined it is disputed": after the block of a funded dispute
+  -- (or accepted evidence) on a report, the aggregate of that query determined by that report (same micro height,
+  -- same reporter) is flagged in the implementation's own collection
+  let flagRes := recs.foldl (fun (acc : ((Bool × String) × List (String × Nat × String)) × List Oracle.Agg) rec =>
+    if !acc.1.1.1 then acc else
+    match rec.splitOn " " with
+    | "F" :: qid :: micro :: reporter :: _ => ((acc.1.1, acc.1.2 ++ [(qid, (parseNat? micro).getD 0, reporter)]), acc.2)
+    | "A" :: rest =>
+      let as := (commaList (" ".intercalate rest)).filterMap parseAggRec
+      -- only aggregates that already existed before the block of the dispute are concerned
+      let bad := acc.1.2.find? (fun (f : String × Nat × String) =>
+        let m := as.filter (fun a => a.qid == f.1 && a.microHeight == f.2.1 && a.reporter == f.2.2 &&
+                                     acc.2.any (fun p => p.qid == a.qid && p.ts == a.ts))
+        !m.isEmpty && !m.any (·.flagged))
+      (match bad with
+       | some f => (((false, s!"aggregate of {f.1} determined by the disputed report (micro height {f.2.1}, reporter {f.2.2}) is not flagged"), []), as)
+       | none => ((acc.1.1, []), as))
+    | _ => acc) (((true, ""), []), [])
+  let flagRes := flagRes.1
+  if !flagRes.1.1 then flagRes.1 else
   -- probes against the implementation's final list
   let final := dumps.getLast?.getD []
   let probes := (recs.filter (·.startsWith "G ")).getLast?.getD "G "
@@ -179,6 +211,34 @@ def c07Monitor (out : String) : Bool × String :=
       if good then acc else (false, s!"report admitted against the rules: {rec.take 140}")
     | _ => acc) (true, "")
 
+/-- C07 on the implementation's own collections after every block: a round that holds reports is either still open
+(present in `Query`, marked as having reports, expiring later) or has produced exactly one aggregate; no stored report belongs
+to a round that is neither — every accepted report ends in exactly one aggregate. -/
+def c07RoundMonitor (out : String) : Bool × String := Id.run do
+  let mut qs : List Query := []
+  let mut as : List Oracle.Agg := []
+  let mut h := 0
+  for rec in out.splitOn " ;; " do
+    match rec.splitOn " " with
+    | "E" :: hS :: _ => h := (parseNat? hS).getD h
+    | "Q" :: rest => qs := (commaList (" ".intercalate rest)).filterMap parseQuery
+    | "A" :: rest => as := (commaList (" ".intercalate rest)).filterMap parseAggRec
+    | "P" :: rest =>
+      for q in qs do
+        if q.hasRev && q.exp ≤ h then return (false, s!"round {q.qid}:{q.id} holds reports and expired at {q.exp} but is still open after h={h}")
+      for e in commaList (" ".intercalate rest) do
+        match e.splitOn ":" with
+        | [qid, midS, _n] =>
+          let mid := (parseNat? midS).getD 0
+          let nAgg := (as.filter (fun a => a.qid == qid && a.metaId == mid)).length
+          let open_ := qs.any (fun q => q.qid == qid && q.id == mid && q.hasRev)
+          if nAgg > 1 then return (false, s!"round {qid}:{mid} produced {nAgg} aggregates")
+          if nAgg == 1 && open_ then return (false, s!"round {qid}:{mid} aggregated but still open after h={h}")
+          if nAgg == 0 && !open_ then return (false, s!"reports of round {qid}:{mid} belong to no open round and no aggregate after h={h}")
+        | _ => pure ()
+    | _ => pure ()
+  return (true, "")
+
 def runOracle (_inp : List String) (out : String) : Option Res :=
   let sc := scanOracle out
   let (pok, pnote) := if sc.ok then checkProbes sc.s sc.probes else (true, "")
@@ -188,7 +248,9 @@ def runOracle (_inp : List String) (out : String) : Option Res :=
 
 def runOracle7 (inp : List String) (out : String) : Option Res := do
   let r ← runOracle inp out
-  let (ok, note) := c07Monitor out
+  let (ok1, note1) := c07Monitor out
+  let (ok2, note2) := c07RoundMonitor out
+  let (ok, note) := if ok1 then (ok2, note2) else (ok1, note1)
   pure { r with monitor := ok, note := if r.note != "" then r.note else note }
 
 def runOracle8 (inp : List String) (out : String) : Option Res := do
